@@ -41,11 +41,19 @@ Threshold_Watcher<Traits>
                                                                     flag)) {
   typename Traits::Threshold threshold;
   Traits::from_delta(threshold, delta);
-  if (!Traits::less_than(Traits::get(), threshold)) {
-    throw std::invalid_argument("Threshold_Watcher constructor called with a"
-                                " threshold already reached");
+  // This is a constructor: if it throws, the destructor will not run
+  // and the handler must be deleted here.
+  try {
+    if (!Traits::less_than(Traits::get(), threshold)) {
+      throw std::invalid_argument("Threshold_Watcher constructor called"
+                                  " with a threshold already reached");
+    }
+    pending_position = add_threshold(threshold, handler, expired);
   }
-  pending_position = add_threshold(threshold, handler, expired);
+  catch (...) {
+    delete &handler;
+    throw;
+  }
 }
 
 template <typename Traits>
@@ -56,11 +64,19 @@ Threshold_Watcher<Traits>
     handler(*new Implementation::Watchdog::Handler_Function(function)) {
   typename Traits::Threshold threshold;
   Traits::from_delta(threshold, delta);
-  if (!Traits::less_than(Traits::get(), threshold)) {
-    throw std::invalid_argument("Threshold_Watcher constructor called with a"
-                                " threshold already reached");
+  // This is a constructor: if it throws, the destructor will not run
+  // and the handler must be deleted here.
+  try {
+    if (!Traits::less_than(Traits::get(), threshold)) {
+      throw std::invalid_argument("Threshold_Watcher constructor called"
+                                  " with a threshold already reached");
+    }
+    pending_position = add_threshold(threshold, handler, expired);
   }
-  pending_position = add_threshold(threshold, handler, expired);
+  catch (...) {
+    delete &handler;
+    throw;
+  }
 }
 
 } // namespace Parma_Polyhedra_Library
